@@ -170,6 +170,7 @@ type GuardedDecl struct {
 	Mutex string
 	Props []string
 	Line  int
+	Except map[string]bool // functions whose accesses are ordered by other means (documented)
 }
 
 // FrameSet: a named, parameterised modifies set ("frameset name(p T, ...) = items").
@@ -544,10 +545,16 @@ func (db *ContractDB) parseFile(path, pkg string) error {
 			if !strings.Contains(recv, ".") {
 				recv = pkg + "." + recv
 			}
-			gd := &GuardedDecl{Recv: recv, Field: f[0][i+1:], Mutex: f[2], Line: l.line}
+			gd := &GuardedDecl{Recv: recv, Field: f[0][i+1:], Mutex: f[2], Line: l.line, Except: map[string]bool{}}
+			ex := false
 			for _, w := range f[3:] {
-				if strings.HasPrefix(w, "@") {
+				switch {
+				case strings.HasPrefix(w, "@"):
 					gd.Props = append(gd.Props, w[1:])
+				case w == "except":
+					ex = true
+				case ex:
+					gd.Except[qualifyFuncName(pkg, w)] = true
 				}
 			}
 			if db.Guarded == nil {
